@@ -1,3 +1,3 @@
-CONSTANTS NProd = 1 NRec = 2 QMax = 2 BMax = 1 NFlush = 1 NShut = 1 Budget = 99 Variant = "span" Dev = {} defaultInitValue = 0
+CONSTANTS NProd = 1 NRec = 2 QMax = 2 BMax = 1 NFlush = 1 NShut = 1 Budget = 99 Variant = "span" Dev = {} Hist = FALSE defaultInitValue = 0
 SPECIFICATION Spec
 INVARIANTS Safety BatchBound
